@@ -16,7 +16,7 @@ impl Property for C20 {
         "C20"
     }
     fn rule(&self) -> &'static str {
-        "profile `layout`: a generated program - valid, or (1 in 4) broken by one grammar-breaking edit - in one case in eight with one literal replaced by a value in 2^63 .. 2^64-1 - printed twice from one token sequence: canonical (single blanks, LF, no comments) and re-laid-out with every freedom the statement lists, all after the header line (blank space widened / tabs / CR / removed where adjacency is safe - between a symbol and anything, and between a number and a directly following X / Z / C entry, which lex as the same two tokens (`0X`, `12z`; not C after a hex literal) -, a CR before the LF of all or of some lines, trailing # comments, inserted blank and comment-only lines, literals rewritten in decimal / 0x / 0X either digit case / 0b / 0B / leading-zero octal). Oracle (metamorphic, no reference semantics): same Ok/Err from parsing, same from binding, and equal items from equally scripted runs (dynamic, and static when possible) except `line`, which must move exactly to where the printer put that row. Non-trivial: the two texts differ in >= 3 kinds of layout change including a radix change or a removed blank; distinct by both texts."
+        "profile `layout`: a generated program - valid, or (1 in 4) broken by one grammar-breaking edit - in one case in eight with one literal replaced by a value in 2^63 .. 2^64-1 - printed twice from one token sequence: canonical (single blanks, LF, no comments; in a quarter of the cases without a line break behind the last line) and re-laid-out with every freedom the statement lists, all after the header line (blank space widened / tabs / CR / removed where adjacency is safe - between a symbol and anything, and between a number and a directly following X / Z / C entry, which lex as the same two tokens (`0X`, `12z`; not C after a hex literal) -, a CR before the LF of all or of some lines, trailing # comments, inserted blank and comment-only lines, literals rewritten in decimal / 0x / 0X either digit case / 0b / 0B / leading-zero octal). Oracle (metamorphic, no reference semantics): same Ok/Err from parsing, same from binding, and equal items from equally scripted runs (dynamic, and static when possible) except `line`, which must move exactly to where the printer put that row. Non-trivial: the two texts differ in >= 3 kinds of layout change including a radix change or a removed blank; distinct by both texts."
     }
     fn cases(&self, tier: Tier) -> u64 {
         match tier {
@@ -28,7 +28,7 @@ impl Property for C20 {
         [400, 400, 60]
     }
     fn required_classes(&self) -> Vec<&'static str> {
-        vec!["reradixed", "removed-blank", "tabs-or-cr", "trailing-comment", "inserted-lines", "broken-program", "valid-program", "rows-compared", "static-compared", "number-joined-to-X/Z/C", "mixed-line-ends", "literal-beyond-i64"]
+        vec!["reradixed", "removed-blank", "tabs-or-cr", "trailing-comment", "inserted-lines", "broken-program", "valid-program", "rows-compared", "static-compared", "number-joined-to-X/Z/C", "mixed-line-ends", "literal-beyond-i64", "canonical-text-without-final-newline"]
     }
     fn run(&self, s: &Streams) -> CaseOut {
         let mut out = CaseOut::new();
@@ -78,6 +78,13 @@ impl Property for C20 {
             o2.final_newline = Some(false);
             o2.insert_lines = false;
             o2.trailing_comments = false;
+        }
+        // in a quarter of the unbroken cases the canonical text ends without a line break behind
+        // its last line, while the re-laid-out one ends it (and may put blank or comment-only
+        // lines below it): nothing was inserted above any row
+        if !force_no_nl && dch.chance(1, 4) {
+            o1.final_newline = Some(false);
+            out.class("canonical-text-without-final-newline");
         }
         let r1 = render(&lines, &mut Ch::new(&[]), o1);
         let r2 = render(&lines, &mut Ch::new(&s[1]), o2);
